@@ -68,6 +68,19 @@ func (w *World) heapSet(h *Heap, name string, t Term) {
 }
 
 func (w *World) heapHavocAll(h *Heap) {
+	// which locks THIS thread holds is not something a callee changes behind its back: uncontracted
+	// callees are assumed lock-balanced (they return with the caller's locks as they found them)
+	ls, hasLS := h.m["LockState"]
+	if !hasLS && w.heapArrays != nil {
+		if s, ok := w.heapArrays["LockState"]; ok {
+			ls, hasLS = w.heapGet(h, "LockState", s), true
+		}
+	}
+	defer func() {
+		if hasLS {
+			h.m["LockState"] = ls
+		}
+	}()
 	w.fresh++
 	h.gen = w.fresh
 	h.m = map[string]Term{}
